@@ -207,6 +207,8 @@ def run(ctx):
         raise AnalysisError('C11: candidate stride not recognised')
     stride = int(lit['value'])
     r1_inputs(ctx, docs)
+    # cut points are a function of (data, key) only: nothing is carried on the adapter from one stream to the next
+    c10.r3_stateless(_Relabel(ctx, 'C11.R1'))
     r2_padding(ctx, docs, stride)
     r3_key(ctx, docs)
     from ..report import Relabel as _RL
@@ -214,7 +216,6 @@ def run(ctx):
 
     # every holder of a key of one family chunks with the same key: a shared key copies the private section unchanged
     r5_key_material(_RL(ctx, 'C11.R3'))
-    c10.r3_stateless(_Relabel(ctx, 'C11.R1'))
     c10.r4_prefix(_Relabel(ctx, 'C11.R1'))
 
 
